@@ -53,6 +53,21 @@ CHECKS = {
             "E-A: for each of 8 prepared bus states, all filter sets reachable by <= 4 (thorough 5) add/remove/clear operations over the 13 filters expressible with object UUIDs {U1,U2} and service UUIDs {S1,S2}, each followed by Start with the three scopes, stop, restart, destroy and foreign access, with an optional second started listener on the same connection; the cached flags are compared with their definition in every state. E-B: three listeners on two connections, filter add/remove, start/stop/destroy, two producers creating / destroying objects and services and disconnecting, BFS to depth 6 (8). Oracles: tagged current events exactly the matching entities then one marker; new events exactly once per connection; ordering monitors (creation before destruction, service events inside the object lifetime, nothing tagged after the marker).",
             "as C02",
             "DESIGN.md §5 C10"),
+    "C06": ("taskmc", "exploration",
+            "stateless deviation-bounded exploration of task schedules (prefix-replay DFS under a deterministic executor) on real Client, Connection and Broker tasks",
+            "A catalogue of program templates written against the public client API (registry and proxies; 1-2 callers x 1-2 overlapping calls with abort by drop and service destruction mid-call; events with two proxies on one client plus one on another, subscribe / subscribe-all / unsubscribe / drop; channels with capacity in {1,4,5,...}, n items, consumer reads m then closes or drops, both ends on one or two clients, close-before-claim, double claim, cancelled claim, cancelled-and-rejected claim, producer polling receiver_closed in stream and ping-pong style; bus listeners; explicit shutdowns in every order), instantiated over unbounded / bounded(1) (thorough also bounded(2), bounded(16)) transports and client versions 1.14 (connect1), 1.16..1.20 (version-rewriting shim): about 260 instances (quick). For each instance all schedules - which ready task of broker, connections, clients and application tasks is polled next - with at most 2 (thorough 3-4) deviations from the canonical schedule. Oracles: no task panics; every Client::run and Connection::run returns Ok (never UnexpectedMessageReceived); every application task finishes (else lost wake-up / deadlock); program assertions (a call returns the value computed from its own arguments, items arrive exactly once in order, events arrive at the proxies subscribed at emit time); after all clients are gone shutdown_idle stops the broker.",
+            "programs outside the catalogue and schedules needing more deviations are not covered; parallelism is covered through the interleaving argument (tasks share no memory)",
+            "DESIGN.md §5 C06"),
+    "C15": ("taskmc", "fault_enumeration",
+            "enumeration of every transport-operation index as fault point (error / end-of-stream) and of the clean causes at every application stage, each with deviation-bounded schedule exploration, on real clients",
+            "A victim client holds pending work of every kind at once (call awaiting its reply, own service awaiting calls, subscribed proxy, sender blocked on credit, receiver awaiting items, started bus listener, lifetime, sync_broker in flight) or subsets; a healthy peer is its counterpart. For every index k of the victim's transport operations (receive, send, flush; counted on the canonical run, incl. the handshake) an error and an end-of-stream are injected at k; Handle::shutdown, BrokerHandle::shutdown and shutdown_connection strike at every stage of setting up the pending work; x unbounded / bounded transports and versions; x all schedules with <= 1 (thorough 2) deviations. Oracles: Client::run returns (Ok for clean causes, the transport error for a delivered fault, never a panic or UnexpectedMessageReceived); every pending and every later operation completes; the peer is unaffected; the broker side sees the connection closed and its snapshot is empty after both clients ended.",
+            "fault index taken from the canonical run; broker shutdown tears connections down in hash order, which is tolerated as divergence and counted",
+            "DESIGN.md §5 C15"),
+    "C19": ("taskmc", "exploration",
+            "enumeration of all producer programs up to a length x discoverer start positions, each with deviation-bounded schedule exploration on real clients, compared with what the producer did",
+            "All valid producer programs of length <= 4 (thorough 5) over create / destroy object {1,2} and add / remove service {1,2} (so re-creation under the same UUID with a new cookie and partial service sets are forced), an observer with a three-entry discoverer (specific object with service, any object with two services, bare object) started after every number of producer steps, plain / restarted / current-only, a wait_for_object and a bound lifetime; all schedules with <= 1 (thorough 2) deviations. Oracles after bus activity stopped and a sync: each entry reports exactly the qualifying objects with current ids; events per (entry, object) alternate starting with Created, in incarnation order, and agree with the final view; the lifetime has ended iff its object is gone and never before the producer began destroying it; wait_for_object returns an incarnation not destroyed before the wait began and resolves if the object exists.",
+            "find_* returning None is not judged",
+            "DESIGN.md §5 C19"),
     "C07": ("codecmc", "exploration",
             "exhaustive enumeration of byte strings and complete single-edit families, differential against an independent reference decoder",
             "All byte strings of length <= 3 over all 256 bytes, length 4 (thorough 5) over an 80-symbol alphabet, and the complete single-edit family (every substitution, truncation, deletion, insertion; thorough: pairs) of every encoding of a corpus of small trees in V1/V2/mixed epochs are fed to decode, len, skip, split_off and kind of the real crate under catch_unwind with a counting allocator, and every answer is compared with the reference decoder (strict and UTF-8-blind); unknown-field / unknown-variant / opaque-element carriers are round-tripped wherever decoding succeeds.",
